@@ -6,7 +6,7 @@ from harness import core
 from props import time_common as tc
 
 BASE = dict(MaxLen=3, MaxT=4, Lo=1, Small=set(), MaxLenS=2, MaxTS=3, Ds={0, 1, 2}, AbsLo=1, Terms={"C", "E", "U"}, AuxLen=0,
-            SpecKs={"N", "C", "E", "U", "X"}, SpecTs={0, 1, 2}, Hz=7, DispOps=set(), DispLen=1)
+            SpecKs={"N", "C", "E", "U", "X"}, SpecTs={0, 1, 2}, Hz=7, DispOps=set(), DispLen=1, EchoOps=set(), EchoKs=set())
 
 # quick: two TLC runs side by side; operators in Small use the smaller timeline bounds; for the operators in DispOps the
 # subscriber also disposes between two instants (timelines of at most DispLen elements)
